@@ -37,10 +37,10 @@ ASSUMPTIONS = [
 S_MODELS = ["hardsphere", "hayter_msa", "squarewell", "stickyhardsphere"]
 QUICK_P = ["sphere", "cylinder", "core_multi_shell", "hollow_cylinder", "vesicle", "fractal", "pearl_necklace",
            "lamellar", "power_law", "adsorbed_layer", "parallelepiped"]
-SLOW_P = ["pringle"]
+SLOW_P = {"pringle": 2, "superball": 3}      # thorough-tier bound for P whose 1-D form factor is a slow numerical integral
 BOUNDS = {
     "quick": {"P": "all 74 models that are not structure factors", "S": S_MODELS, "D": 2, "D3_P": QUICK_P},
-    "thorough": {"P": "all 74 models that are not structure factors", "S": S_MODELS, "D": 4, "D2_P": SLOW_P},
+    "thorough": {"P": "all 74 models that are not structure factors", "S": S_MODELS, "D": 4, "D_slow_P": SLOW_P},
 }
 CASE_TIMEOUT = 300
 
@@ -120,12 +120,10 @@ def _dims(ctx, pname, sname):
 def cases(ctx):
     out = []
     for p in p_models(ctx):
-        if p in SLOW_P:
-            D = 2
-        elif ctx.quick:
+        if ctx.quick:
             D = 3 if p in QUICK_P else 2
         else:
-            D = 4
+            D = SLOW_P.get(p, 4)
         for s in S_MODELS:
             for k, c in deviations(_dims(ctx, p, s), D):
                 out.append({"P": p, "S": s, "dev": k, "cfg": c})
